@@ -22,7 +22,8 @@ Definition row_targets : list target := map TScalar row_fmts ++ map TList row_fm
 Inductive case :=
 | CRow (s : src) (os : list obs)                  (* one source against every row target *)
 | COne (t : target) (s : src) (o : obs)
-| COneOf (ts : list target) (s : src) (o : obs) (picked : Z)    (* ConvOneOf; index of the format returned *)
+| COneOf (ts : list target) (s : src) (o : obs) (picked first : Z)
+    (* ConvOneOf; index of the format returned; index of the first format the real val.Conv accepts *)
 | CNew (ty : ntype) (s : src) (o : obs)                         (* node.NewValue(type, v) *)
 | CNewStrs (tys : list ntype) (strs : list (list byte)) (os : option (list obs)) (may : bool).
     (* node.NewValuesByString(leaves, strs...): None = error, Some = the values *)
@@ -118,7 +119,9 @@ Definition target_eqb (a b : target) : bool :=
   end.
 Fixpoint index_of (t : target) (ts : list target) (i : Z) : Z :=
   match ts with [] => -1 | u :: tl => if target_eqb t u then i else index_of t tl (i + 1) end.
-Definition spec_oneof (ts : list target) (s : src) (o : obs) (picked : Z) : bool :=
+Definition spec_oneof (ts : list target) (s : src) (o : obs) (picked first : Z) : bool :=
+  (* first match: an error only if no member converts, else the first member that converts *)
+  (picked =? first) &&
   match strip_may o with
   | OErr => true
   | ONil => match s with SScalar XNil => true | _ => false end
@@ -129,9 +132,9 @@ Definition spec_oneof (ts : list target) (s : src) (o : obs) (picked : Z) : bool
   | OEnum _ _ => false
   | OMay _ => true
   end.
-Definition classify_oneof (ts : list target) (s : src) (o : obs) (picked : Z) : verdict :=
+Definition classify_oneof (ts : list target) (s : src) (o : obs) (picked first : Z) : verdict :=
   let known := if existsb (fun t => kf_float_text t s) ts then Some 1%nat else None in
-  let spec := spec_oneof ts s o picked in
+  let spec := spec_oneof ts s o picked first in
   match conv_one_of ts s with
   | Unmodelled => if is_may o then Agree else Diverge
   | Err => classify_gen (match strip_may o with OErr => true | _ => false end) spec known
@@ -197,7 +200,7 @@ Definition classify (c : case) : verdict :=
   match c with
   | CRow s os => classify_row row_targets s os
   | COne t s o => classify_cell t s o
-  | COneOf ts s o p => classify_oneof ts s o p
+  | COneOf ts s o p f => classify_oneof ts s o p f
   | CNew ty s o => classify_new ty s o
   | CNewStrs tys strs os may => classify_strs tys strs os may
   end.
